@@ -34,7 +34,7 @@ def line_ok(l):
 
 def part_sweep(ctx, part):
     inputs = robust.gen_inputs(ctx, "c01", ctx.n(25, 300), ctx.n(10, 100))
-    robust.sweep(ctx, part, inputs, lambda src: [[], ["-i"]], line_ok, {"crash", "status", "badline"})
+    robust.sweep(ctx, part, inputs, lambda src: [[], ["-i"]], line_ok, {"crash", "status", "badline", "hang"})
 
 
 PARTS = [robust.part_driver_corr, part_sweep]
